@@ -85,6 +85,11 @@ def check(repo, res, tier):
     res.assumptions += [
         'one hot and one cold tier (Config.parse_buffer_config returns one-element dicts)',
         'closed world: only topsim code mutates simulator state']
+    from . import c06
+    from .common import borrow
+    res.rule('C19.W', 'adopted C06.W4: an ingest task lasts its own observation\'s duration -- the cluster query answers from the '
+                      'ingest pool and the running tasks, which are only right while ingest tasks end when their observation does')
+    borrow(repo, res, tier, c06, {'C06.W4'}, 'C19.W')
     nonempty = nonempty_iterables(repo)
     for q, reqs in REQUIRED.items():
         f = repo.func(q)
